@@ -74,6 +74,7 @@ def make_rig(cfg, transport='udp', fill=None, T=1, R=0, ka=False, ctx=None, keep
         return Rig('ES', dev, transport, T, R, ka, ctx, keep_world=keep_world)
     dev = ModbusDevice(unit=0xF7 if fam == 'ET' else 0x7F, **({'fill': fill} if fill else {}))
     dev.mbap_length = cfg.get('mbap_length', 'correct')
+    dev.refuse_mode = cfg.get('refuse_mode', 'touch')
     if fam == 'ET':
         et_device_info(dev, serial=serial_for(cfg['tag']), rated=cfg['power'])
         dev.rf.set(35184, cfg['battery_mode'])
